@@ -1126,7 +1126,7 @@ func judgeExecution(ex *expectation, out []byte, calls []call) result {
 		}
 		if h.notif {
 			why := answeredNotifications(ex, resps)
-			cls = append(cls, "notification-answered:"+why)
+			cls = append(cls, "notification-answered")
 			det = append(det, "a notification (request without id) that fails with "+why+" was answered with an error response carrying id null; the specification forbids replying to notifications")
 		}
 		return result{class: strings.Join(cls, "+"), detail: strings.Join(det, "; ") + ". Everything else in this execution is consistent."}
